@@ -161,7 +161,8 @@ namespace Pistache
         addr                              = { 0 };
         addr.sin_family                   = AF_INET;
         uint8_t buff[INET_ADDRSTRLEN + 1] = { 0, 0, 0, 0 };
-        memcpy(&addr.sin_addr.s_addr, buff, INET_ADDRSTRLEN);
+        memcpy(&addr.sin_addr.s_addr, buff, sizeof(in_addr_t));
+        port = 0;
     }
 
     IP::IP(uint8_t a, uint8_t b, uint8_t c, uint8_t d)
@@ -170,7 +171,8 @@ namespace Pistache
         addr                              = { 0 };
         addr.sin_family                   = AF_INET;
         uint8_t buff[INET_ADDRSTRLEN + 1] = { a, b, c, d };
-        memcpy(&addr.sin_addr.s_addr, buff, INET_ADDRSTRLEN);
+        memcpy(&addr.sin_addr.s_addr, buff, sizeof(in_addr_t));
+        port = 0;
     }
 
     IP::IP(uint16_t a, uint16_t b, uint16_t c, uint16_t d, uint16_t e, uint16_t f,
@@ -195,6 +197,7 @@ namespace Pistache
             memcpy(&remap, &buff, sizeof(remap));
         }
         memcpy(&addr6.sin6_addr.s6_addr16, &remap, 8 * sizeof(uint16_t));
+        port = 0;
     }
 
     IP::IP(struct sockaddr* _addr)
@@ -203,7 +206,7 @@ namespace Pistache
         {
             struct sockaddr_in* in_addr = reinterpret_cast<struct sockaddr_in*>(_addr);
             family                      = AF_INET;
-            port                        = in_addr->sin_port;
+            port                        = ntohs(in_addr->sin_port);
             memcpy(&(addr.sin_addr.s_addr), &(in_addr->sin_addr.s_addr),
                    sizeof(in_addr_t));
         }
@@ -211,7 +214,7 @@ namespace Pistache
         {
             struct sockaddr_in6* in_addr = reinterpret_cast<struct sockaddr_in6*>(_addr);
             family                       = AF_INET6;
-            port                         = in_addr->sin6_port;
+            port                         = ntohs(in_addr->sin6_port);
             memcpy(&(addr6.sin6_addr.s6_addr16), &(in_addr->sin6_addr.s6_addr16),
                    8 * sizeof(uint16_t));
         }
